@@ -14,6 +14,15 @@ NewSourceSplitter, at every fake node's Deploy handler and inside the harness-ow
 is model-free: the job checkpoint ids of the operator checkpoints in every recorded DeployOperatorRequest and of the
 SourceCheckpoint (id and split positions) handed to the splitter.
 
+Late acknowledgements (family "late", C12 / C13): todo[s] of Restart.tla = the acknowledgement member s of the assembly that
+took the pending checkpoint still owes (possibly under way, also from the member that was lost); it is delivered at every
+point of the following start() and after it.  NoOldAssemblyPublication: a checkpoint completes only while its own assembly is
+the job's assembly.  The replayer delivers the held acknowledgements of the fake nodes at the model's Ack steps and judges
+model-free: the LAST acknowledgement of a checkpoint of assembly k accepted after start k+1 has read its recovery checkpoint
+(then it lets the write go and reports the store's current checkpoint and the retention announcements the new assembly got).
+
+  C12  "published only after every operator and every source runner of the CURRENT assembly has acknowledged ...; late ...
+       acknowledgements never complete or corrupt it"
   C13  "whenever the job (re)starts it recovers from THE completed checkpoint with the highest id"
        -> two cuts in one start, or a cut that was never the newest completed checkpoint during the start
   C16  "after recovery every split is resumed from its checkpointed position" (the checkpoint the job recovered from)
@@ -24,7 +33,8 @@ import json
 import vlib
 import storelib
 
-DEVS = ("Dev_RereadAfterDeploy", "Dev_RereadAtDeploy")
+DEVS = ("Dev_RereadAfterDeploy", "Dev_RereadAtDeploy")          # two cuts in one start
+LATE = "Dev_DiscardAtRunning"                                   # a late acknowledgement completes the old assembly's checkpoint
 TLC_WORKERS = 4
 ASSUMES = ("restart arm: membership is abstract (one member deregisters, a node registers again; C15 covers the rest); the fake nodes "
            "answer every Deploy; the instants at which a publication can strike inside start() are those a harness-owned interface "
@@ -33,14 +43,14 @@ ASSUMES = ("restart arm: membership is abstract (one member deregisters, a node 
 
 def consts(W, ck, restarts, maxlen=1000, hold="@{}", focus=False, **dev):
     k = dict(W=W, MaxCk=ck, MaxRestarts=restarts, MaxLen=maxlen, HoldIn=hold, Focus=focus)
-    for d in DEVS:
+    for d in DEVS + (LATE,):
         k[d] = False
     k.update(dev)
     return k
 
 
 def label(k):
-    return "W=%d MaxCk=%d MaxRestarts=%d%s" % (k["W"], k["MaxCk"], k["MaxRestarts"], "".join(" " + d for d in DEVS if k[d]))
+    return "W=%d MaxCk=%d MaxRestarts=%d%s" % (k["W"], k["MaxCk"], k["MaxRestarts"], "".join(" " + d for d in DEVS + (LATE,) if k[d]))
 
 
 def during_deploy(beh):
@@ -71,31 +81,119 @@ def witnesses(k, num, seed):
     return first, later, r
 
 
+class Decided(Exception):
+    """the tree is decided (enough violations) or too slow to finish (budget): the rest of the arm is skipped"""
+
+
+def late_point(beh):
+    """index of the first acknowledgement that completes a checkpoint after a later start() has discarded / read (None: never)"""
+    for i, s in enumerate(beh):
+        if s["a"] == "Ack" and s["complete"] and s["ph"] not in ("none", "spawned"):
+            return i
+    return None
+
+
+def late_witnesses(k, num, seed):
+    """schedules of Dev_DiscardAtRunning up to the late acknowledgement that completes the old assembly's checkpoint,
+    grouped by where in start() it strikes, shortest first"""
+    r = vlib.run_tlc("Restart", cfg=dict(constants=k, invariants=["CexDumpLate"]), simulate=num, depth=k["MaxLen"], seed=seed, timeout=200, name="Restart-late")
+    if r.error and "timeout" not in r.error:
+        raise vlib.MachineryError("witness generation failed: %s\n%s" % (r.error, r.out[-3000:]))
+    seen, by_ph = set(), {}
+    for b in sorted(r.behaviours, key=len):
+        key = json.dumps(b, sort_keys=True)
+        if late_point(b) != len(b) - 1 or key in seen:
+            continue
+        seen.add(key)
+        # (phase, how many acknowledgements arrive late, an earlier checkpoint is current: the new assembly restores from it)
+        n = sum(1 for s in b if s["a"] == "Ack" and s["ph"] not in ("none", "spawned"))
+        by_ph.setdefault((b[-1]["ph"], min(n, 2), any(s["a"] == "PublishDone" for s in b)), []).append(b)
+    return by_ph, r
+
+
+# every wait of the replayer is bounded, and so is the whole call: a chunk of 60 behaviours takes < 1 s on a healthy tree; a
+# child is killed after 25 s, after 3 violations or 150 s the remaining behaviours are skipped (a job that hangs ends the
+# arm after ~100 s with "child timed out" violations; measured with a store call that never returns)
+BOUNDS = dict(Chunk=60, ChildTimeoutS=25, StopAfterViolations=3, BudgetS=150)
+
+
 def _replay(c, prop, k, behs, what):
     if not behs:
         raise vlib.MachineryError("no behaviours generated for " + what)
-    cfg = dict(W=k["W"], mode="restart", Harness="membership", Chunk=60, JudgeNewest=(prop == "C13"))
+    cfg = dict(W=k["W"], mode="restart", Harness="membership", JudgeNewest=(prop == "C13"), JudgeLateAck=(prop in ("C12", "C13")), **BOUNDS)
     payload = dict(property=prop, family="restart", seed=c.seed, config=cfg, behaviours=behs)
-    res = vlib.run_harness("membership", payload, timeout=900)
-    c.add_harness(res, payload, "one cut per restart, real jobs.Job: %s (%s, %d behaviours)" % (what, label(k), len(behs)))
+    res = vlib.run_harness("membership", payload, timeout=600)
+    c.add_harness(res, payload, "restart inside a living job, real jobs.Job: %s (%s, %d behaviours)" % (what, label(k), len(behs)))
+    cn = res.get("counters", {})
+    if cn.get("skipped_budget"):
+        c.errors.append("restart arm: time budget exhausted replaying %s; %d behaviours not run" % (what, cn["skipped_budget"]))
+        raise Decided()
+    if len(c.violations) >= 3:
+        raise Decided()
     return res
 
 
-def single_cut_arm(c, tier, prop):
+def coverage_of(r):
+    """action -> states generated (vlib's own pattern misses actions under a quantifier: TLC prints their location twice)"""
+    import re
+    cov = {}
+    for line in r.out.splitlines():
+        m = re.match(r"^<(\w+) line \d+, col \d+ to line \d+, col \d+ of module \w+(?: \([\d ]+\))?>: (\d+):(\d+)", line)
+        if m:
+            cov[m.group(1)] = cov.get(m.group(1), 0) + int(m.group(3))
+    return cov
+
+
+def single_cut_arm(c, tier, prop, families=None):
+    """families: "cut" (one cut per start: SingleCut, Dev_Reread*), "late" (late acknowledgements of the previous assembly:
+    NoOldAssemblyPublication, Dev_DiscardAtRunning).  Default: both for C12 / C13, "cut" for the others."""
+    if families is None:
+        families = ("cut", "late") if prop in ("C12", "C13") else ("cut",)
+    try:
+        _arm(c, tier, prop, families)
+    except Decided:
+        c.extra["restart_arm_cut_short"] = True
+    if ASSUMES not in c.assumptions:
+        c.assumptions.append(ASSUMES)
+
+
+def _arm(c, tier, prop, families):
     quick = tier == "quick"
     # 1. the design: SingleCut in every reachable state; PublishDone must really strike inside start()
-    need = ("PublishPaused", "PublishBeforeRead", "PublishBeforeDeploy", "PublishDuringDeploy", "PublishAfterDeploy", "Lose", "StartSplitter")
+    need = ("PublishPaused", "PublishBeforeRead", "PublishBeforeDeploy", "PublishDuringDeploy", "PublishAfterDeploy", "Lose", "StartSplitter",
+            "AckPaused", "AckBeforeRead", "LateAckBeforeDeploy", "LateAckDuringDeploy", "LateAckAfterDeploy", "LateAckRunning")
     for k in ([consts(1, 3, 2), consts(2, 3, 2)] if quick else [consts(1, 4, 3), consts(2, 4, 2), consts(3, 3, 2)]):
         r = vlib.run_tlc("Restart", cfg=dict(constants=k, invariants=["Safety"], view="view"), workers=TLC_WORKERS, timeout=600, coverage=True)
-        c.add_tlc(r, "Restart SingleCut " + label(k))
-        cov = {a: r.coverage.get(a, 0) for a in need}
+        c.add_tlc(r, "Restart SingleCut + NoOldAssemblyPublication " + label(k))
+        full = coverage_of(r)
+        cov = {a: full.get(a, 0) for a in need}
         c.extra.setdefault("restart_coverage", {})[label(k)] = cov
         for a, n in cov.items():
             if r.ok and n == 0:
                 c.errors.append("Restart.tla %s: action %s is never taken: the check is vacuous" % (label(k), a))
     # 2. non-vacuity + witness schedules: each deviating design uses two cuts; replayed on the real code, which must not
     wit = {}
-    for i, d in enumerate(DEVS):
+    if "late" in families:
+        k = consts(1, 2, 1, **{LATE: True})
+        r = vlib.run_tlc("Restart", cfg=dict(constants=k, invariants=["Safety"], view="view"), workers=TLC_WORKERS, timeout=300)
+        c.add_tlc(r, "Restart with %s (must be violated)" % LATE, must_hold=False)
+        if r.violated != "Safety":
+            c.errors.append("Restart.tla with %s did not violate NoOldAssemblyPublication: violated=%s error=%s" % (LATE, r.violated, r.error))
+        for W in (1, 2):
+            kk = consts(W, 3, 2, maxlen=44 if W == 1 else 60, focus=True, **{LATE: True})
+            by_ph, r = late_witnesses(kk, 600 if quick else 3000, c.seed * 10 + 7)
+            c.add_tlc(r, "Restart witness schedules with %s W=%d" % (LATE, W), must_hold=False)
+            missing = [ph for ph in ("read", "deploying", "deployed") if not any(key[0] == ph for key in by_ph)]
+            if not any(key[2] for key in by_ph):
+                missing.append("(with an earlier checkpoint current)")
+            if missing:
+                raise vlib.MachineryError("no %s witness with the late acknowledgement in phase %s (W=%d)" % (LATE, missing, W))
+            late = [b for key in sorted(by_ph) for b in by_ph[key][:1 if quick else 6]]
+            res = _replay(c, prop, consts(W, 3, 2), late, "schedules on which a job that discards the old pending checkpoint only when it runs again publishes it")
+            cn = res.get("counters", {})
+            if not res.get("violations") and cn.get("late_ack_refused", 0) == 0:
+                c.errors.append("restart arm W=%d: no late acknowledgement of a previous assembly's checkpoint reached the real job (%s)" % (W, res.get("drift_notes", [])[:3]))
+    for i, d in enumerate(DEVS if "cut" in families else ()):
         k = consts(1, 2, 1, **{d: True})
         r = vlib.run_tlc("Restart", cfg=dict(constants=k, invariants=["Safety"], view="view"), workers=TLC_WORKERS, timeout=300)
         c.add_tlc(r, "Restart with %s (must be violated)" % d, must_hold=False)
@@ -124,6 +222,8 @@ def single_cut_arm(c, tier, prop):
             raise vlib.MachineryError("Restart cover generation failed: %s %s\n%s" % (r.error, r.violated, r.out[-2000:]))
         c.add_tlc(r, "Restart transition cover " + label(k))
         _replay(c, prop, k, storelib._maximal(r.behaviours), "transition cover")
+    if "cut" not in families:
+        return
     # 4. simulated behaviours, two workers, overlapping publications held back while Running / Paused
     n = 150 if quick else 1500
     for i, (hold, focus) in enumerate((('@{"Running"}', True), ('@{"Running", "Idle"}', True), ("@{}", True), ("@{}", False))):
@@ -131,8 +231,6 @@ def single_cut_arm(c, tier, prop):
         behs, r = vlib.gen_behaviours("Restart", k, n, k["MaxLen"] + 5, c.seed * 100 + i, timeout=300)
         c.add_tlc(r, "Restart -simulate %s HoldIn=%s Focus=%s" % (label(k), hold[1:], focus), must_hold=False)
         _replay(c, prop, k, behs, "simulated schedules HoldIn=%s Focus=%s" % (hold[1:], focus))
-    if ASSUMES not in c.assumptions:
-        c.assumptions.append(ASSUMES)
 
 
 def is_restart_file(payload):
@@ -144,5 +242,7 @@ def replay(c, path):
     payload.pop("violation", None)
     payload["property"] = c.prop
     payload.setdefault("config", {})["JudgeNewest"] = (c.prop == "C13")
-    res = vlib.run_harness("membership", payload, timeout=900)
+    payload["config"]["JudgeLateAck"] = (c.prop in ("C12", "C13"))
+    payload["config"].update(BOUNDS)
+    res = vlib.run_harness("membership", payload, timeout=600)
     c.add_harness(res, payload, "replay " + path)
